@@ -2,7 +2,7 @@ SPECIFICATION CexSpecR
 CONSTANTS
   Me = "p2"
   MaxEpoch = 3
-  MaxTick = 2
+  MaxTick = 1
   Rich = FALSE
   Shapes = {"keep", "swap"}
   Depth = 0
